@@ -208,6 +208,8 @@ def class_parser():
     p.add_argument("--m", type=zoo.Base)
     p._vf_lazy = lazy_instance(zoo.SubA, a=3)
     p.add_argument("--lz", type=zoo.Base, default=p._vf_lazy)
+    p.add_argument("--cs", type=zoo.Base, default={"class_path": "vf.fixtures.zoo.SubA", "init_args": {"a": 1}})
+    p.add_argument("--nums", type=List[int], default=[1, 2])
     p.add_argument("--ms", type=List[zoo.Base])
     p.add_argument("--dm", type=Dict[str, zoo.Base])
     p.add_argument("--holder", type=zoo.Holder)
@@ -272,6 +274,30 @@ def case_classes(ctx, i, rng):
         obj["ho"] = spec("HolderOpt", child=spec("SubA", a=6), many=[spec("Base", a=7), spec("SubA", a=8)], m={"z": spec("SubB")})
     w = dict(features=feats)
     ctx.evaluation(("cls", tuple(feats)))
+    blank = rng.random() < 0.4
+    if blank:
+        # a default config file that exists but holds nothing (empty / only a comment): results still never alias the
+        # declared defaults, so writing below a branch-valued default in one parse must not show in the next
+        dcf = os.path.join(ctx.workdir, f"c8_blank_{i % 7}.yaml")
+        with open(dcf, "w") as f:
+            f.write(rng.choice(["", "# nothing here\n", "\n\n"]))
+        p.default_config_files = [dcf]
+        w = dict(w, default_config_file="blank")
+        ctx.count("st.blank_default_config_file")
+    if blank or rng.random() < 0.3:
+        argv = ["--cs.init_args.a=5", "--lz.init_args.a=6", "--nums+=3", "--ho.init_args.many+=" + json.dumps(spec("Base", a=9)), "--dc.inner.x=41"]
+        rng.shuffle(argv)
+        argv = argv[: rng.randrange(1, len(argv) + 1)]
+        first = call(p.parse_args, [])
+        Probe(ctx, p, "parse_args-below-branch-defaults", [argv], {}, w=dict(w, argv=argv)).run(p.parse_args)
+        again = call(p.parse_args, [])
+        ctx.count("mon.parse_after_writing_below_branch_defaults")
+        if first.accepted and again.accepted:
+            from vf.util import same
+
+            d = same(first.value.as_dict(), again.value.as_dict())
+            if d:
+                ctx.violation("immutability", "defaults-only-parse-differs-after-a-parse-that-wrote-below-branch-defaults", dict(w, argv=argv, at=d[0], why=d[1]))
     o = Probe(ctx, p, "parse_object", [obj], {}, w=w).run(p.parse_object)
     if not o.accepted:
         ctx.observe("class-config-rejected", o.brief())
@@ -348,15 +374,48 @@ def case_cwd(ctx, i, rng):
         f.write("n: 3\npt: pt.yaml\n" if good else "n: notint\npt: pt.yaml\n")
     with open(os.path.join(root, "real", "sub", "pt.yaml"), "w") as f:
         f.write("x: 1\ny: 2.0\n")
-    p = ArgumentParser(exit_on_error=False)
+    exiting = rng.random() < 0.35  # failures end in usage + SystemExit(2) instead of ArgumentError
+    p = ArgumentParser(exit_on_error=exiting)
+    if exiting and not good:
+        ctx.count("st.failing_config_parse_with_exit_on_error")
     p.add_argument("--cfg", action=ActionConfigFile)
     p.add_argument("--n", type=int, default=0)
     p.add_argument("--pt", type=zoo.Point)
     via = rng.choice(["link/sub/c.yaml", "abslink/c.yaml", "real/sub/c.yaml", "real/sub/../sub/c.yaml"])
-    how = rng.choice(["parse_path", "--cfg", "default_config_files"])
+    how = rng.choice(["parse_path", "--cfg", "default_config_files", "pathobj-cwd", "pathobj-early", "save-pathobj"])
     old = os.getcwd()
     os.chdir(root)
     try:
+        if how in ("pathobj-cwd", "pathobj-early", "save-pathobj"):
+            # a jsonargparse Path object whose recorded cwd is not the process working directory (created with cwd=, or
+            # created earlier while the process was elsewhere) given to parse_path / save: the process stays where it is
+            from jsonargparse import Path as JPath
+
+            elsewhere = os.path.join(root, "real")
+            ctx.evaluation(("cwd", via, how, good))
+            ctx.count("mon.path_object_with_foreign_cwd")
+            if how != "save-pathobj":
+                ctx.count("mon.symlinked_config_parses")
+            w = dict(via=via, how=how, config_valid=good)
+            if how == "pathobj-cwd":
+                os.chdir(elsewhere)
+                po = call(JPath, via, mode="fr", cwd=root)
+            elif how == "pathobj-early":
+                po = call(JPath, via, mode="fr")
+                os.chdir(elsewhere)
+            else:
+                os.chdir(elsewhere)
+                po = call(JPath, f"saved{i % 5}.yaml", mode="fc", cwd=os.path.join(root, "real", "sub"))
+            if not po.accepted:
+                ctx.observe("path-object-not-created", po.brief())
+                return
+            if how == "save-pathobj":
+                cfg = call(p.parse_args, ["--n=4"])
+                if cfg.accepted:
+                    Probe(ctx, p, "save-path-object", [cfg.value, po.value], {"overwrite": True}, readonly=False, w=w).run(p.save)
+            else:
+                Probe(ctx, p, "parse_path-path-object", [po.value], {}, w=w).run(p.parse_path)
+            return
         ctx.evaluation(("cwd", via, how, good))
         ctx.count("mon.symlinked_config_parses")
         w = dict(via=via, how=how, config_valid=good)
